@@ -689,7 +689,10 @@ def main():
         try:
             src = strip_comments(open(os.path.join(REPO, t["file"])).read())
             gen.append((t["name"], {"slice_loop": slice_loop, "method": method, "function": function, "api": api, "formula": formula, "method_slice_loop": method_slice_loop}[t["kind"]](t, src)))
-        except (Untranslatable, OSError) as e:
+        except Exception as e:
+            # Untranslatable / OSError: outside the subset or file gone; anything else: an internal error of the
+            # translator on syntax it did not expect.  Either way this one body is not translated
+            if not isinstance(e, (Untranslatable, OSError)): e = Untranslatable("translator error %s: %s" % (type(e).__name__, e))
             failed.append((t["name"], str(e)))
             gen.append((t["name"], "(* %s: NOT TRANSLATED: %s *)" % (t["name"], str(e).replace("*)", "* )"))))
     names = {n for n, _ in gen}
